@@ -34,6 +34,12 @@ pub(crate) struct Thread {
 
     locals: LocalMap,
 
+    /// The keys of `locals` in the order in which they were initialized.
+    /// Thread-locals are destroyed in this order: the iteration order of the
+    /// map differs from process to process, and a destructor may perform loom
+    /// operations, which have to be the same every time the model runs.
+    local_order: Vec<LocalKeyId>,
+
     /// Token used by `thread::park` / `Thread::unpark`, created on first use.
     pub(super) park_token: Option<super::Notify>,
 
@@ -105,6 +111,7 @@ impl Thread {
             last_yield: None,
             yield_count: 0,
             locals: HashMap::new(),
+            local_order: Vec::new(),
             park_token: None,
         }
     }
@@ -147,8 +154,10 @@ impl Thread {
         let mut locals = Vec::with_capacity(self.locals.len());
 
         // run the Drop impls of any mock thread-locals created by this thread.
-        for local in self.locals.values_mut() {
-            locals.push(local.0.take());
+        for key in &self.local_order {
+            if let Some(local) = self.locals.get_mut(key) {
+                locals.push(local.0.take());
+            }
         }
 
         Box::new(locals)
@@ -429,11 +438,11 @@ impl Set {
         key: &'static crate::thread::LocalKey<T>,
         value: T,
     ) {
-        assert!(self
-            .active_mut()
-            .locals
-            .insert(LocalKeyId::new(key), LocalValue::new(value))
-            .is_none())
+        let key = LocalKeyId::new(key);
+        let thread = self.active_mut();
+
+        assert!(thread.locals.insert(key, LocalValue::new(value)).is_none());
+        thread.local_order.push(key);
     }
 }
 
